@@ -24,6 +24,21 @@ func (x *Exec) setResult(s *State, result ssa.Value, v Value) {
 
 func (x *Exec) call(s *State, in ssa.Instruction, c *ssa.CallCommon, result ssa.Value) bool {
 	site := x.sites[in]
+	if x.con != nil && len(x.con.At[site]) > 0 {
+		ok := true
+		func() {
+			defer x.recoverSpec("at "+site, &ok)
+			for i, cl := range x.con.At[site] {
+				env := x.envFor(s, nil)
+				t := env.checkTerm(cl)
+				o := x.ob("at", site+"#"+clauseName(cl, i), cl.Src, in)
+				s.check(o, t)
+			}
+		}()
+		if !ok {
+			return false
+		}
+	}
 	if b, ok := c.Value.(*ssa.Builtin); ok {
 		return x.builtin(s, in, b, c, result)
 	}
@@ -58,6 +73,13 @@ func (x *Exec) call(s *State, in ssa.Instruction, c *ssa.CallCommon, result ssa.
 			if u, ok := c.Value.(*ssa.UnOp); ok {
 				if g, ok := u.X.(*ssa.Global); ok {
 					key = g.Pkg.Pkg.Path() + "." + g.Name()
+				}
+				// a function-typed struct field: contract under <pkg>.<Struct>.<field>
+				if fa, ok := u.X.(*ssa.FieldAddr); ok {
+					if n, ok := fa.X.Type().Underlying().(*types.Pointer).Elem().(*types.Named); ok && n.Obj().Pkg() != nil {
+						st := n.Underlying().(*types.Struct)
+						key = n.Obj().Pkg().Path() + "." + n.Obj().Name() + "." + st.Field(fa.Field).Name()
+					}
 				}
 			}
 			// a function-typed parameter may have a contract attached in the enclosing contract
@@ -283,7 +305,7 @@ func (x *Exec) applyContract(s *State, con *Contract, names []string, args []Val
 		rv = Value{T: res, F: results}
 	}
 	// ensures, instantiated at the caller's skolem constants
-	post := &Env{x: x, s: s, hp: s.heap, old: oldHeap, allocOld: allocOld, vars: vars, pkg: pkg}
+	post := &Env{x: x, s: s, hp: s.heap, old: oldHeap, allocOld: allocOld, vars: vars, pkg: pkg, inCallee: true}
 	bindResults(post, sig, results)
 	insts := x.instantiations(post, con)
 	func() {
